@@ -144,6 +144,12 @@ void ConcurrentExecutionQueue<T, S>::consume_until_empty() noexcept {
                                                          _queue.capacity());
     if (poped != 0) {
       events = _events.load(::std::memory_order_acquire);
+    } else if (_queue.size() != 0) {
+      // Some producer has taken an index but not published its slot yet.
+      // Items behind it may already be published and signaled, so leaving
+      // now would strand them without any consumer (and let join return
+      // early) until that producer signals. Keep polling instead.
+      S::yield();
     } else if (_events.compare_exchange_strong(events, 0,
                                                ::std::memory_order_acq_rel)) {
       break;
